@@ -222,6 +222,44 @@ fn codec_sweep(tier: Tier, st: &mut Stats) {
     st.merge(res);
 }
 
+/// Dictionaries beyond the small families (hundreds of homographs / unknown entries, 18
+/// categories, with user lexicon): write, read, and compare the tokens of all their sentences.
+fn big_roundtrip(tier: Tier, st: &mut Stats) {
+    let us = crate::universe::u_big(tier);
+    let res = par_explore(us.len(), |ui, st| {
+        let u = &us[ui];
+        let mut sentences = all_strings(&u.alphabet, 3);
+        sentences.extend(u.extra_sentences.iter().take(20).cloned());
+        let Ok((d, _)) = u.build() else { return };
+        let Ok((bytes, n)) = write_bytes(&d) else { return };
+        st.states += 1;
+        st.transitions += 1;
+        st.count("big_dictionaries_round_tripped");
+        let case = || json!({"kind": "tokenize", "dictionary": u.describe()});
+        if n != bytes.len() {
+            st.violation(Finding { class: "write-count-wrong".into(), what: format!("write reported {n}, emitted {} [{}]", bytes.len(), u.name), replay: case() });
+        }
+        let RealStep::Ok(d2) = read_bytes(&bytes) else {
+            st.violation(Finding { class: "read-of-own-image-fails".into(), what: format!("image of {} not readable", u.name), replay: case() });
+            return;
+        };
+        if write_bytes(&d2).ok().map(|x| x.0) != Some(bytes) {
+            st.violation(Finding { class: "rewrite-differs".into(), what: format!("re-written image differs [{}]", u.name), replay: case() });
+        }
+        let oa = observe(d, &sentences);
+        let ob = observe(d2, &sentences);
+        if oa != ob {
+            let idx = oa.tokens.iter().zip(&ob.tokens).position(|(x, y)| x != y);
+            st.violation(Finding {
+                class: "big-dictionary-reload-differs".into(),
+                what: format!("reloaded dictionary {} behaves differently (first differing sentence {:?})", u.name, idx.map(|i| sentences[i % sentences.len()].clone())),
+                replay: case(),
+            });
+        }
+    });
+    st.merge(res);
+}
+
 pub fn run(tier: Tier) -> i32 {
     let mut rep = Report::new("C05", tier);
     let fams = family_d(tier);
@@ -392,11 +430,12 @@ pub fn run(tier: Tier) -> i32 {
     });
     let mut st = st;
     codec_sweep(tier, &mut st);
+    big_roundtrip(tier, &mut st);
     cross_build(tier, &mut st);
     rep.rule = format!("state = (dictionary family, history h1 of depth <= {d1}, continuation h2 of depth <= {d2}) over the ops {{load user lexicon x2, clear, map x4, write->read}}; the dictionary after h1 is written, re-read and re-written; then the original and the reloaded instance run h2 in lock-step and are compared on op outcomes, images, the full connection table and the tokens of all sentences of length <= {sent_len} under two option settings; plus a codec sweep: every bigram model of the C07 family compiled raw and dual, written, re-read and compared on the complete connection table and the re-written bytes; distinct = distinct observation tables");
     rep.bounds = json!({"h1_depth": d1, "h2_depth": d2, "sentence_len": sent_len, "families": fams.iter().map(|f| f.name.clone()).collect::<Vec<_>>()});
     rep.assumptions = vec!["AVX2/portable interchange is checked by the separate dual-build step when an AVX2 CPU is present".into()];
-    let mut req = vec!["codec_sweep_images", "continuations_with_behaviour_changing_ops", "images_Matrix", "images_Raw", "images_Dual"];
+    let mut req = vec!["codec_sweep_images", "big_dictionaries_round_tripped", "continuations_with_behaviour_changing_ops", "images_Matrix", "images_Raw", "images_Dual"];
     if st.get("e5_skipped_no_avx2") == 0 {
         req.push("e5_images_portable->avx2");
         req.push("e5_images_avx2->portable");
